@@ -11,11 +11,11 @@ Open Scope string_scope.
 Open Scope list_scope.
 
 Theorem C16_pst_modes_agree : forall ub t,
-  wf_idl t = true -> pst_to_ast Debug ub t = pst_to_ast Release ub t.
+  wf_idl (canon t) = true -> pst_to_ast Debug ub t = pst_to_ast Release ub t.
 Proof. exact pst_modes_agree. Qed.
 Print Assumptions C16_pst_modes_agree.
 
-Theorem C16_pst_release_no_ub : forall ub t, wf_idl t = true -> not_ub (pst_to_ast Release ub t).
+Theorem C16_pst_release_no_ub : forall ub t, wf_idl (canon t) = true -> not_ub (pst_to_ast Release ub t).
 Proof. exact pst_release_no_ub. Qed.
 Print Assumptions C16_pst_release_no_ub.
 
@@ -33,17 +33,28 @@ Theorem C16_array_size_refuted :
 Proof. split; vm_compute; reflexivity. Qed.
 Print Assumptions C16_array_size_refuted.
 
-(* ... and so does a comment between the tokens of a parameter (F12) *)
-Theorem C16_comment_pair_refuted :
-  let t := T "idl" "" [T "interface" "" [T "interface_keyword" "interface " []; T "iname" "" [T "ident" "I" []];
-             T "function" "" [T "function_keyword" "method " []; T "ident" "f" [];
-                T "param" "" [T "mutability" "in" []; T "COMMENT" "/*c*/" []; T "param_type" "" [T "primitive_type" "uint8" []]; T "ident" "x" []]]]] in
-  (exists c, pst_to_ast Debug false t = Reject c) /\ (exists s, pst_to_ast Release false t = UB s).
+(* a comment between the tokens of a parameter (F12).  With the pinned positional reads the
+   modes disagree (panic in Debug, unwrap_unchecked on None in Release) ... *)
+Definition comment_in_param : tree :=
+  T "idl" "" [T "interface" "" [T "interface_keyword" "interface " []; T "iname" "" [T "ident" "I" []];
+     T "function" "" [T "function_keyword" "method " []; T "ident" "f" [];
+        T "param" "" [T "mutability" "in" []; T "COMMENT" "/*c*/" []; T "param_type" "" [T "primitive_type" "uint8" []]; T "ident" "x" []]]]].
+
+Theorem C16_comment_pair_refuted_upstream :
+  (exists c, pst_to_ast_raw Debug false comment_in_param = Reject c) /\
+  (exists s, pst_to_ast_raw Release false comment_in_param = UB s).
 Proof. split; eexists; vm_compute; reflexivity. Qed.
-Print Assumptions C16_comment_pair_refuted.
+Print Assumptions C16_comment_pair_refuted_upstream.
+
+(* ... with the repaired reads (the tree being checked: regenerated fact) it is an ordinary input *)
+Theorem C16_comment_pair_current :
+  wf_idl (canon comment_in_param) = true /\
+  pst_to_ast Release false comment_in_param = Ok [NIface (mkI "I" None [IFunc (mkFn "f" [mkP false (TPrim U8) PVal "x"] false None)])].
+Proof. split; vm_compute; reflexivity. Qed.
+Print Assumptions C16_comment_pair_current.
 
 Example C16_nonvacuous :
   let t := T "idl" "" [T "const" "" [T "const_keyword" "const " []; T "primitive_type" "uint8" []; T "ident" "K" []; T "value" "7" []];
                        T "COMMENT" "// c" []; T "EOI" "" []] in
-  wf_idl t = true /\ pst_to_ast Release false t = Ok [NConst (mkC "K" U8 "7")].
+  wf_idl (canon t) = true /\ pst_to_ast Release false t = Ok [NConst (mkC "K" U8 "7")].
 Proof. split; vm_compute; reflexivity. Qed.
